@@ -246,6 +246,19 @@ class Check(BaseCheck):
                 m = res[1]
                 if m.v.shape[1] != 3 or m.t.shape[1] != 3:
                     fails.append(core.Failure("correspondence", "constructor checks vs model", "accepted but not 3 wide"))
+        # index arrays whose largest entry equals the vertex count are out of range whatever their smallest entry is (1-based lists are not accepted)
+        for nm, (bv, bt) in (("tetra-surface", gen.tetra_surface()), ("grid", gen.grid(2, 2)), ("octahedron", gen.octahedron())):
+            bv = np.asarray(bv, float); bt = np.asarray(bt)
+            for label, tt in (("t + 1", bt + 1), ("t + 1 transposed", (bt + 1).T.copy()), ("one entry = nv", np.where(np.arange(bt.size).reshape(bt.shape) == 1, len(bv), bt))):
+                res = core.call(lambda: TriaMesh(bv, tt))
+                stats.case("ctor-shift" + nm + label, cls="ctor:out-of-range")
+                if not (res[0] == "err" and res[1] == "ValueError"):
+                    fails.append(core.Failure("correspondence", "constructor checks vs model", "%s with %s (largest index = number of vertices) is accepted: %s" % (nm, label, res[0]),
+                                              dict(kind="ctor-range", name=nm, label=label)))
+        cv, ct = gen.cube5()
+        res = core.call(lambda: TetMesh(np.asarray(cv, float), np.asarray(ct) + 1))
+        if not (res[0] == "err" and res[1] == "ValueError"):
+            fails.append(core.Failure("correspondence", "constructor checks vs model", "TetMesh with t + 1 is accepted", dict(kind="ctor-range", name="cube5", label="t + 1")))
         return fails
 
     # ---- oracle
@@ -261,6 +274,15 @@ class Check(BaseCheck):
         yield dict(kind="purity", name="purity")
 
     def oracle(self, case):
+        if case["kind"] == "ctor-range":
+            base = {"tetra-surface": gen.tetra_surface, "grid": lambda: gen.grid(2, 2), "octahedron": gen.octahedron, "cube5": gen.cube5}[case["name"]]()
+            bv = np.asarray(base[0], float); bt = np.asarray(base[1])
+            cls = TetMesh if case["name"] == "cube5" else TriaMesh
+            tt = {"t + 1": bt + 1, "t + 1 transposed": (bt + 1).T.copy(), "one entry = nv": np.where(np.arange(bt.size).reshape(bt.shape) == 1, len(bv), bt)}[case["label"]]
+            res = core.call(lambda: cls(bv, tt))
+            if not (res[0] == "err" and res[1] == "ValueError"):
+                return core.Violation("constructor", "element indices up to the number of vertices (%s of %s) are not rejected with ValueError" % (case["label"], case["name"]), case)
+            return None
         if case["kind"] == "purity":
             return self.purity()
         v = np.asarray(case["v"], float); t = np.asarray(case["t"], dtype=np.int64)
